@@ -29,6 +29,7 @@
 //! drip), the K release cadence, SeqCst Dekker pairings, flush-before-wait, the
 //! cap-1 pre-park spin, `finish_sync_*` stack guards, and `CachePadded`
 //! placement. Never ever "simplify" any of it without re-benchmarking.
+#![allow(unexpected_cfgs)] // `excsn_fibre_verif` gates the verification seam H4 below
 
 // Payload cells stay on std::cell::UnsafeCell (see internal/sync.rs - loom's
 // closure-API cell is out of scope; miri covers payload races).
@@ -53,7 +54,11 @@ pub(crate) const SKIP: u8 = 2;
 /// of only after hundreds of sends. Under loom it keeps each tiny model from
 /// allocating hundreds of loom-tracked atomics it never touches. Correctness is
 /// `chunk_cap`/`n`-agnostic, so shrinking only broadens coverage / cuts overhead.
+#[cfg(not(excsn_fibre_verif))]
 const MODEL_CHECK: bool = cfg!(miri) || crate::internal::sync::IS_LOOM;
+/// Verification seam H4: the same shrunken chunk table miri and loom use.
+#[cfg(excsn_fibre_verif)]
+const MODEL_CHECK: bool = true;
 
 /// Extra live-ticket headroom (beyond `cap`) the chunk table must cover, to
 /// absorb concurrent-claim overshoot. One SKIP per racing producer per attempt.
